@@ -63,6 +63,14 @@ def exprs(depth):
         for v in {k[:-1], k[1:], k + "s", "x" + k, k.lower(), k.upper(), k[0], k[:2]} - set(NAMES):
             if v.isidentifier() and not keyword.iskeyword(v):
                 out.append(f"other({v!r}, a)".replace(f"other({v!r}, a)", f"{v}(a)"))
+    # a lambda parameter NAMED like a shortcut, and genuine shortcut calls of that name before,
+    # inside a sibling and after it (seed C19_f: a scope tracker that never forgot the name)
+    for k in NAMES:
+        other = "Sum" if k != "Sum" else "Count"
+        out += [f"{other}(Select(a, lambda {k}: {k} + 1)) + {k}(b)",
+                f"({k}(b), {other}(Select(a, lambda {k}: {k} * 2)), {k}(a))",
+                f"Select(ll, lambda {k}: {other}({k})) + [{k}(a)]",
+                f"[{other}(Select(ll, lambda {k}: {other}(Select({k}, lambda {k}: {k})))), {k}(b)]"]
     out += ["o.Sum(Sum(a))", "o.Count(Count(a), len(b))", "o.Max(Max(a), b=Min(b))",
             "Sum(Select(ll, lambda l: Sum(Select(l, lambda x: Max([x, 1])))))",
             "len(ll)", "Count(Select(ll, lambda l: o.Sum(l)))"]
